@@ -13,6 +13,8 @@ impl AbstractInstructionSet {
     // Only the LW/SW instructions are modified, and the redundant
     // computations left untouched, to be later removed by a DCE pass.
     pub(crate) fn const_indexing_aggregates_function(mut self, data_section: &DataSection) -> Self {
+        #[cfg(fuellabs_sway_verif)]
+        crate::verif_hooks::asm_pass("enter", "const_indexing_aggregates", &self.function, &self.ops);
         // Poor man's SSA (local ... per block).
         #[derive(PartialEq, Eq, Hash, Clone, Debug)]
         struct VRegDef {
@@ -246,6 +248,8 @@ impl AbstractInstructionSet {
             retain
         });
 
+        #[cfg(fuellabs_sway_verif)]
+        crate::verif_hooks::asm_pass("exit", "const_indexing_aggregates", &self.function, &self.ops);
         self
     }
 }
